@@ -18,6 +18,7 @@ import (
 	"github.com/ClickHouse/ch-go/proto"
 
 	"chgosim/choice"
+	"chgosim/gen"
 	"chgosim/refproto"
 	"chgosim/sched"
 	"chgosim/simnet"
@@ -71,6 +72,15 @@ type holdIv struct {
 	fromAt   time.Duration
 }
 
+// poolTarget is what a pool user binds: one known column, or whatever the
+// server sends.
+func poolTarget(auto bool, v *proto.ColUInt8) proto.Result {
+	if auto {
+		return new(proto.Results).Auto()
+	}
+	return proto.Results{{Name: "v", Data: v}}
+}
+
 func runC11(t *testing.T, c *choice.Stream, r *Result, opt RunOpt) { runPool(t, c, r, opt, false) }
 
 // runPool is the pool workload; lean=true (race build, C12) drops every piece
@@ -96,6 +106,26 @@ func runPool(t *testing.T, c *choice.Stream, r *Result, opt RunOpt, lean bool) {
 		period := sec("period", 1, 2, 60)
 		nUsers := c.Range("users", 1, 4)
 		faulty := false
+		// answers with generated columns (time zones, dictionaries, nested types)
+		// read through inferred targets: the users of a pool decode at the same
+		// time, each on its own connection
+		var rich [][]byte
+		if lean && c.Bool("pool.rich", 1, 2) {
+			for i := 0; i < 4; i++ {
+				cols := DrawCols(c, "pool.rich.cols", 3, 1)
+				blk := DrawBlock(c, cols, c.Range("pool.rich.rows", 1, 3))
+				// one column carries a time zone for certain
+				base := []string{"DateTime", "DateTime64(3)"}[c.Draw("pool.rich.tz.base", 2)]
+				alts := gen.ServerSpellings[base]
+				rt, err := refproto.ParseType(base)
+				if err != nil {
+					panic(err)
+				}
+				blk.Cols = append(blk.Cols, refproto.Column{Name: "tz", Type: alts[c.Draw("pool.rich.tz", len(alts))], Vals: gen.Values(c.Sub("pool.rich.tz.vals"), rt, blk.Rows)})
+				rich = append(rich, (&SPacket{Kind: "data", Block: blk}).Encode(cf))
+			}
+		}
+		richN := 0
 		progs := make([][]poolOp, nUsers)
 		for u := range progs {
 			n := c.Range("prog.len", 1, 4)
@@ -229,6 +259,12 @@ func runPool(t *testing.T, c *choice.Stream, r *Result, opt RunOpt, lean bool) {
 						cn.EndStream(true)
 					case "STALL":
 					default:
+						if rich != nil {
+							cn.Enqueue(rich[richN%len(rich)])
+							richN++
+							cn.Enqueue((&SPacket{Kind: "eos"}).Encode(cf))
+							break
+						}
 						blk := &refproto.Block{Rows: 1, BucketNum: -1, Cols: []refproto.Column{{Name: "v", Type: "UInt8", Vals: []any{uint64(1)}}}}
 						cn.Enqueue((&SPacket{Kind: "data", Block: blk}).Encode(cf))
 						cn.Enqueue((&SPacket{Kind: "eos"}).Encode(cf))
@@ -483,7 +519,7 @@ func runPool(t *testing.T, c *choice.Stream, r *Result, opt RunOpt, lean bool) {
 							if op.Op == "pool-do" {
 								var v proto.ColUInt8
 								nreq := len(reqs)
-								_ = pool.Do(ctx, ch.Query{Body: "OK", QueryID: name + " 0", Result: proto.Results{{Name: "v", Data: &v}},
+								_ = pool.Do(ctx, ch.Query{Body: "OK", QueryID: name + " 0", Result: poolTarget(rich != nil, &v),
 									Settings: []ch.Setting{{Key: "user_tag", Value: name}}})
 								// Pool.Do has released the connection it used: if that one was past
 								// its lifetime by then, nobody may receive it again
@@ -592,7 +628,7 @@ func runPool(t *testing.T, c *choice.Stream, r *Result, opt RunOpt, lean bool) {
 								qctx, cancel = context.WithTimeout(ctx, 500*time.Millisecond)
 							}
 							var v proto.ColUInt8
-							derr := cl.Do(qctx, ch.Query{Body: doBody(op.Op), QueryID: fmt.Sprintf("%s %d", name, iv.id), Result: proto.Results{{Name: "v", Data: &v}},
+							derr := cl.Do(qctx, ch.Query{Body: doBody(op.Op), QueryID: fmt.Sprintf("%s %d", name, iv.id), Result: poolTarget(rich != nil, &v),
 								Settings: []ch.Setting{{Key: "user_tag", Value: name}}})
 							if cancel != nil {
 								cancel()
